@@ -51,6 +51,8 @@ Section Seq.
   Variable cap : nat.
   Hypothesis OK : slots_ok cap = true.
   Hypothesis SH : shape_ok cap = true.
+  Variable bsz : nat.
+  Hypothesis Hbsz : cap < bsz.
   Variable total : list (list Z).
 
   (** assertions: abstract heap, tags, count, history so far *)
@@ -280,18 +282,18 @@ Section Seq.
   Qed.
 
   Lemma hsafe_heapify_pop lf s fut : forall hf p c, c = 2 * p ->
-    safe 0 (heapify_pop hf lf cap p c) (DownA p s fut) (optQ (fun _ l' => l' = UpA 0 s fut)).
+    safe 0 (heapify_pop hf lf bsz p c) (DownA p s fut) (optQ (fun _ l' => l' = UpA 0 s fut)).
   Proof.
     induction hf as [|hf IH]; intros p c Hc; [exact I|]. cbn [heapify_pop].
-    destruct (Nat.ltb c (bufsize cap)) eqn:Ec.
-    - apply Nat.ltb_lt in Ec. unfold bufsize in Ec.
+    destruct (Nat.ltb c bsz) eqn:Ec.
+    - apply Nat.ltb_lt in Ec.
       apply hsafe_lock. intros g h tg n cl HR HD0. pose proof HD0 as (HD & HM & HH).
       pose proof HR as (R1 & R2 & R3 & R4). unfold cellv, cellt in R3, R4.
       pose proof HD as (HO & [HE HA] & Hp & Hpv & Hord & Hgr).
       unfold body_child. cbv zeta. rewrite !R4.
       destruct (h c) as [l|] eqn:El.
       + assert (Htc : tg c = TAvail) by (apply HA; rewrite El; discriminate). rewrite Htc. cbn [tag_eqb].
-        destruct (Nat.ltb (S c) (bufsize cap)) eqn:Er.
+        destruct (Nat.ltb (S c) bsz) eqn:Er.
         * (* the right sibling exists in the buffer: lock it *)
           cbn [fst snd flat_map]. split; [reflexivity|].
           exists (fun h' tg' n' cl' => DownA p s fut h' tg' n' cl' /\ h' c <> None). split.
@@ -344,7 +346,7 @@ Section Seq.
              ++ destruct K3 as (Eg & HU). exists (UpA 0 s fut). split; [exists h3, tg3, n3; rewrite Eg; auto|].
                 intros _. apply hsafe_unlock_none. apply hsafe_unlock_none. reflexivity.
         * (* no right sibling inside the buffer: compare the left child at once *)
-          apply Nat.ltb_ge in Er. unfold bufsize in Er.
+          apply Nat.ltb_ge in Er.
           assert (HI : IsMax h p c).
           { split; [left; exact Hc|]. split; [rewrite El; discriminate|]. intros k x m Hk Hd Hx Hm.
             destruct (div2_children k p Hp Hd) as [-> | ->]; [rewrite <- Hc, El in Hx; rewrite El in Hm; inversion Hx; inversion Hm; subst; lia|].
@@ -363,7 +365,7 @@ Section Seq.
         { exists h, tg, n. split; [exact HR|]. split; [|split; [exact HM|exact HH]]. apply (Good_UpInv0 cap OK SH).
           apply (DownInv_leaf cap OK SH p n h tg R2 HD). rewrite <- Hc. exact El. }
         intros _. cbn [unbusy vn]. apply hsafe_unlock_none. apply hsafe_unlock_none. reflexivity.
-    - apply Nat.ltb_ge in Ec. unfold bufsize in Ec.
+    - apply Nat.ltb_ge in Ec.
       apply hsafe_unlock. intros g h tg n cl HR (HD & HM & HH). cbn [body_none fst snd flat_map]. split; [reflexivity|].
       pose proof HR as (R1 & R2 & R3 & R4).
       exists (UpA 0 s fut). split.
@@ -377,7 +379,7 @@ Section Seq.
   Proof. apply bc_st. Qed.
 
   Lemma hsafe_push hf lf x s fut :
-    safe 0 (push cap hf lf 0 x) (UpA 0 s (push_tok cap s :: fut))
+    safe 0 (push cap bsz hf lf 0 x) (UpA 0 s (push_tok cap s :: fut))
       (optQ (fun b l' => l' = UpA 0 (fst (bpq_step cap s (Push (prio x)))) (push_tok cap s :: fut) /\
                          push_tok cap s = [2%Z; bz b])).
   Proof.
@@ -402,7 +404,7 @@ Section Seq.
       assert (Ec' : c' = st (S n)) by (cbn [st]; rewrite Einc; reflexivity).
       set (i := slot (S n)) in *. rewrite Esl.
       assert (Ri : 1 <= i <= cap) by (apply (slot_range cap OK); lia).
-      assert (Hin : Nat.ltb i (bufsize cap) = true) by (apply Nat.ltb_lt; unfold bufsize; lia). rewrite Hin.
+      assert (Hin : Nat.ltb i bsz = true) by (apply Nat.ltb_lt; lia). rewrite Hin.
       cbn [fst snd flat_map]. split; [reflexivity|].
       pose proof (UpInv0_Good cap OK SH n h tg R2 HU) as HG.
       destruct (UpInv_store cap OK SH n h tg x Hn HG) as [Hfree HUs]. fold i in Hfree, HUs.
@@ -435,7 +437,7 @@ Section Seq.
   Qed.
 
   Lemma hsafe_pop hf lf s fut :
-    safe 0 (pop cap hf lf) (UpA 0 s (pop_tok s :: fut))
+    safe 0 (pop bsz hf lf) (UpA 0 s (pop_tok s :: fut))
       (optQ (fun r l' => l' = UpA 0 (fst (pq_pop s)) (pop_tok s :: fut) /\
                          pop_tok s = match r with Some z => [4; 1; prio z] | None => [4; 0; 0] end%Z)).
   Proof.
@@ -456,7 +458,7 @@ Section Seq.
       assert (Ec' : c' = st m) by (pose proof (dec_st cap OK (S m) ltac:(lia)) as K; rewrite Edec in K; exact K).
       set (b := slot (S m)) in *. rewrite Esl.
       assert (Rb : 1 <= b <= cap) by (apply (slot_range cap OK); lia).
-      assert (Hin : Nat.ltb b (bufsize cap) = true) by (apply Nat.ltb_lt; unfold bufsize; lia). rewrite Hin.
+      assert (Hin : Nat.ltb b bsz = true) by (apply Nat.ltb_lt; lia). rewrite Hin.
       cbn [fst snd flat_map]. split; [reflexivity|].
       exists (fun h' tg' n' cl' => n' = m /\ UpA 0 s (pop_tok s :: fut) h' tg' (S m) cl'). split.
       { exists h, tg, m. split; [|split; [reflexivity|exact HU0]]. subst c'. apply (Rep_set_ctr g h tg (S m) m HR). lia. }
@@ -539,7 +541,7 @@ Section Seq.
   Definition spec_op (o : op) : pop_op := match o with OPush x => Push (prio x) | OPop => Pop end.
 
   Lemma hsafe_run_op hf lf o s os :
-    safe 0 (run_op cap hf lf 0 o) (UpA 0 s (spec_hist cap s (o :: os)))
+    safe 0 (run_op cap bsz hf lf 0 o) (UpA 0 s (spec_hist cap s (o :: os)))
       (fun ok l' => ok = true -> l' = UpA 0 (fst (bpq_step cap s (spec_op o))) (spec_hist cap (fst (bpq_step cap s (spec_op o))) os)).
   Proof.
     destruct o as [x|]; cbn [run_op spec_hist spec_op].
@@ -579,7 +581,7 @@ Section Seq.
   Qed.
 
   Lemma hsafe_run_ops hf lf : forall os s,
-    safe 0 (run_ops cap hf lf 0 os) (UpA 0 s (spec_hist cap s os)) (@Conc.QTrue asrt).
+    safe 0 (run_ops cap bsz hf lf 0 os) (UpA 0 s (spec_hist cap s os)) (@Conc.QTrue asrt).
   Proof.
     induction os as [|o r IH]; intros s; cbn [run_ops]; [exact I|].
     apply Conc.safe_bind. eapply Conc.safe_weaken; [|apply hsafe_run_op].
@@ -587,7 +589,7 @@ Section Seq.
   Qed.
 
   Lemma hsafe_thread hf lf os :
-    safe 0 (thread_prog cap hf lf 0 os) (UpA 0 [] (spec_hist cap [] os)) (@Conc.QTrue asrt).
+    safe 0 (thread_prog cap bsz hf lf 0 os) (UpA 0 [] (spec_hist cap [] os)) (@Conc.QTrue asrt).
   Proof.
     unfold thread_prog. cbn [Conc.safe]. intros g a tr Hi Hv. cbn [a_begin fst snd]. exists a.
     split; [apply SInv_silent; [reflexivity|exact Hi]|]. split; [apply frame_refl|]. rewrite Hv. apply hsafe_run_ops.
@@ -598,12 +600,12 @@ End Seq.
 Lemma prios_empty cap : prios cap (fun _ => None) = [].
 Proof. unfold prios, items. induction (seq 1 cap) as [|k l IH]; [reflexivity|exact IH]. Qed.
 
-Theorem mspq_sequential_refines cap (OK : slots_ok cap = true) (SH : shape_ok cap = true) hf lf os c :
-  Conc.reach (init_cfg cap hf lf [os]) c ->
+Theorem mspq_sequential_refines cap (OK : slots_ok cap = true) (SH : shape_ok cap = true) bsz (Hbsz : cap < bsz) hf lf os c :
+  Conc.reach (init_cfg cap bsz hf lf [os]) c ->
   exists fut, phist (Conc.trace c) ++ fut = spec_hist cap [] os.
 Proof.
   intros Hr. set (total := spec_hist cap [] os).
-  assert (H0 : Conc.cfg_ok (view) (SInv cap total) (init_cfg cap hf lf [os])).
+  assert (H0 : Conc.cfg_ok (view) (SInv cap total) (init_cfg cap bsz hf lf [os])).
   { exists (fun _ => UpA cap total 0 [] total). split.
     - split; [|exists total; reflexivity]. exists (fun _ => None), (fun _ => TEmpty), 0. split.
       + split; [reflexivity|]. split; [lia|]. split; intros i; reflexivity.
@@ -612,6 +614,6 @@ Proof.
         * intros i. split; [congruence|]. intros (j & Hj & _). lia.
         * intros k _ x Hx. discriminate.
     - intros t p Hp. cbn [init_cfg Conc.threads thread_progs] in Hp. destruct t as [|[|t]]; try discriminate.
-      inversion Hp. apply (hsafe_thread cap OK SH total hf lf os). }
+      inversion Hp. apply (hsafe_thread cap OK SH bsz Hbsz total hf lf os). }
   destruct (Conc.reach_Inv H0 Hr) as (a & _ & Hpre). exact Hpre.
 Qed.
